@@ -24,11 +24,14 @@ ASSUMPTIONS = ['an index / list entry may name the object in its MIB spelling or
 REMOTE = 'REMOTE-MIB'
 LOCAL = 'TEST-MIB'
 _SPLIT = [0]
+_TEXTS = [0]    # 1: every object carries a REFERENCE and the set is compiled with genTexts
 
 
 def ot(name, syn, oid, access='read-only', **kw):
     d = {'k': 'ot', 'name': name, 'syntax': syn, 'access': ('MAX-ACCESS', access), 'status': 'current', 'descr': 'd',
          'oid': oid}
+    if _TEXTS[0]:
+        d['ref'] = 'RFC 9999, section %d' % len(name)
     d.update(kw)
     return d
 
@@ -75,7 +78,7 @@ def compile_set(local_decls):
     for backend in ('json', 'pysnmp'):
         parser = env.shared_parser('smiV2')
         parser.reset()
-        out[backend] = env.compile_set(texts, [LOCAL], codegen=backend, dialect=parser)
+        out[backend] = env.compile_set(texts, [LOCAL], codegen=backend, dialect=parser, **({'genTexts': True} if _TEXTS[0] else {}))
     return refir.Universe(mods), mods, texts, out
 
 
@@ -230,6 +233,20 @@ class Tables(object):
 
 LIST_OBJECTS = {'objects': ['localObj', 'local-hy-obj', 'remoteObj', 'remote-hy-obj'],
                 'notifications': ['localNotif', 'local-hy-notif', 'remoteNotif']}
+
+
+class TablesWithTexts(Tables):
+    name = 'tables-with-texts'
+    describe = ('the tables family again with a REFERENCE clause on every object and genTexts on: what the text-bearing clauses add '
+                'to an entry takes nothing away from its INDEX / AUGMENTS data')
+
+    def run_case(self, case):
+        _TEXTS[0] = 1
+        try:
+            out, vs, st = Tables.run_case(self, case)
+        finally:
+            _TEXTS[0] = 0
+        return out, [(sig.replace('C06|table|', 'C06|table-with-texts|'), d) for sig, d in vs], st
 
 
 class Lists(object):
@@ -570,4 +587,4 @@ class Smiv1ForeignMembers(object):
         return 'ok' if not vs else 'bad', vs, 1
 
 
-FAMILIES = [Tables(), Lists(), Compliance(), ImportSpellings(), NamesOfEarlierImports(), ShippedTemplates(), Smiv1ForeignMembers()]
+FAMILIES = [Tables(), TablesWithTexts(), Lists(), Compliance(), ImportSpellings(), NamesOfEarlierImports(), ShippedTemplates(), Smiv1ForeignMembers()]
